@@ -139,9 +139,9 @@ Definition common_map (file_hdrs : list (str * str)) : hmap :=
   fold_left (fun m kv => hm_set m (fst kv) (snd kv)) file_hdrs [].
 
 (* uri.go / uripost.go:   header := commonHeader.Clone()
-                          for k, vv := range decodedConfigHeaders { for _, v := range vv { header.Set(k, v) } } *)
+                          for k, vv := range decodedConfigHeaders { if _, ok := header[k]; !ok { header[k] = copy(vv) } } *)
 Definition merge_uri (common cfgm : hmap) : hmap :=
-  fold_left (fun h kvs => fold_left (fun h v => hm_set h (fst kvs) v) (hv_list (snd kvs)) h) cfgm common.
+  fold_left (fun h kvs => match hm_get (fst kvs) h with Some _ => h | None => h ++ [kvs] end) cfgm common.
 
 (* jsonline.go:  header := decodedConfigHeaders.Clone(); for k, v := range da.Headers { header.Set(k, v) } *)
 Definition merge_json (cfgm : hmap) (ehdrs : list (str * str)) : hmap :=
